@@ -83,6 +83,8 @@ var toleratedErrors = map[string]string{
 	"(*sdk/go/keepclient.KeepClient).uploadToKeepServer / ReadAll":    "if / else-if chain: each arm sends exactly one status (C11-R2)",
 	"(*services/keepstore.UnixVolume).EmptyTrash / Walk":              "a failed directory walk is logged; the sweep still drains its workers",
 	"(*services/keepstore.UnixVolume).Untrash / Rename":               "a failed rename of one trashed copy tries the next copy; the last error is returned",
+	"(*services/keep-balance.Balancer).GetCurrentState / value":       "the collection fetcher records EachCollection's error in errs (C06-R2), cancels, and then ends like the success path",
+	"(*sdk/go/keepclient.BlockCache).Get / value":                     "a cache entry that holds an error is fetched again (C03-R4)",
 	"services/keepstore.PutBlock / CompareAndTouch":                   "a non-collision compare error falls through to writing a fresh copy",
 }
 
@@ -159,13 +161,14 @@ func hygieneFuncs(r *R) []*ssa.Function {
 
 func hygiene(r *R) {
 	fns := hygieneFuncs(r)
-	h1, h2, h3, h4, h5, h6 := r.Prop+"-H1", r.Prop+"-H2", r.Prop+"-H3", r.Prop+"-H4", r.Prop+"-H5", r.Prop+"-H6"
+	h1, h2, h3, h4, h5, h6, h7 := r.Prop+"-H1", r.Prop+"-H2", r.Prop+"-H3", r.Prop+"-H4", r.Prop+"-H5", r.Prop+"-H6", r.Prop+"-H7"
 	r.Rule(h1, "functions examined by this property: every mutex taken is released on every path to every exit, and every release follows its acquire (a leaked or doubly released lock blocks or kills every later operation)", 0)
 	r.Rule(h2, "HTTP handlers examined by this property write a response on every path to every return (no implicit empty 200)", 0)
 	r.Rule(h3, "goroutines examined by this property: WaitGroup.Add before `go`, Done on every path of the goroutine", 0)
 	r.Rule(h4, "functions examined by this property: the arm of an if statement that runs when an error is nil never returns, formats or dereferences that error (signature of an inverted error test)", 0)
 	r.Rule(h5, "functions examined by this property: the error side of every nil-test on a call's error result leaves the success path (return, continue, break, panic) — except the sites confirmed by reading, where a failure is deliberately tolerated", 0)
 	r.Rule(h6, "functions examined by this property read the error result of every call that has one, except calls confirmed harmless to ignore (hash writes, best-effort Close/Remove, response body writes)", 0)
+	r.Rule(h7, "goroutines started in a loop by the functions examined capture no variable that later iterations reassign (loop variables of this pre-1.22 module included)", 0)
 	for _, root := range fns {
 		all := append([]*ssa.Function{root}, Closures(root)...)
 		for _, fn := range all {
@@ -175,6 +178,7 @@ func hygiene(r *R) {
 				r.Info(h1, fn, "lock wrapper / documented lock hand-over", fn.Pos(), hygieneWrappers[fnShort(root)])
 			}
 			hygieneWaitGroup(r, h3, fn)
+			hygieneLoopCapture(r, h7, fn)
 			hygieneNilErr(r, h4, fn)
 			for _, c := range unusedErrors(fn) {
 				name := CalleeName(c.Common())
@@ -185,10 +189,10 @@ func hygiene(r *R) {
 				r.Check(benign, h6, fn, "unread error of "+bareName(name), c.Pos(), "confirmed harmless to ignore: "+why,
 					"the error result of this call is never read: a failure here goes unnoticed (the check that used it is gone?)")
 			}
-			for _, c := range errFallThrough(fn) {
-				key := fnShort(rootFn(fn)) + " / " + bareName(CalleeName(c.Common()))
+			for _, ft := range errFallThrough(fn) {
+				key := fnShort(rootFn(fn)) + " / " + ft.src
 				why, tolerated := toleratedErrors[key]
-				r.Check(tolerated, h5, fn, "error of "+bareName(CalleeName(c.Common()))+" handled", c.Pos(), "confirmed tolerated failure: "+why,
+				r.Check(tolerated, h5, fn, "error of "+ft.src+" handled", ft.pos, "confirmed tolerated failure: "+why,
 					"the error side of this `err != nil` test runs on into the success path (the return/continue that ended it is missing): the failure is ignored")
 			}
 		}
@@ -449,9 +453,14 @@ func describeShort(v ssa.Value) string {
 // errFallThrough lists, for fn, the `if err != nil { … }` tests on a call's error result whose error side runs on
 // into the success side (no return / continue / break / panic): sites where a failure is deliberately tolerated —
 // or where the statement that ended the error path was lost.
-func errFallThrough(fn *ssa.Function) []ssa.CallInstruction {
-	var out []ssa.CallInstruction
-	seen := map[ssa.CallInstruction]bool{}
+type fallThrough struct {
+	src string // callee of the error, or "<-chan" / "value" when it does not come straight from a call
+	pos token.Pos
+}
+
+func errFallThrough(fn *ssa.Function) []fallThrough {
+	var out []fallThrough
+	seen := map[ssa.Value]bool{}
 	for _, b := range fn.Blocks {
 		iff, ok := lastInstr(b).(*ssa.If)
 		if !ok || len(b.Succs) != 2 {
@@ -484,7 +493,13 @@ func errFallThrough(fn *ssa.Function) []ssa.CallInstruction {
 				call = cc
 			}
 		}
-		if call == nil || seen[call] {
+		src, pos := "value", iff.Pos()
+		if call != nil {
+			src, pos = bareName(CalleeName(call.Common())), call.Pos()
+		} else if u, isU := Strip(x).(*ssa.UnOp); isU && u.Op == token.ARROW {
+			src = "<-chan"
+		}
+		if seen[x] {
 			continue
 		}
 		neqOnTrue := (bo.Op == token.NEQ) != flip
@@ -493,8 +508,8 @@ func errFallThrough(fn *ssa.Function) []ssa.CallInstruction {
 			errSide, okSide = b.Succs[0], b.Succs[1]
 		}
 		if errSide == okSide {
-			seen[call] = true
-			out = append(out, call)
+			seen[x] = true
+			out = append(out, fallThrough{src, pos})
 			continue
 		}
 		// forward reachability from the error side to the success side, not through a loop header enclosing the test
@@ -544,8 +559,8 @@ func errFallThrough(fn *ssa.Function) []ssa.CallInstruction {
 			}
 		}
 		if fall {
-			seen[call] = true
-			out = append(out, call)
+			seen[x] = true
+			out = append(out, fallThrough{src, pos})
 		}
 	}
 	return out
@@ -578,4 +593,41 @@ func unusedErrors(fn *ssa.Function) []*ssa.Call {
 		}
 	})
 	return out
+}
+
+// hygieneLoopCapture (H7): a goroutine started inside a loop captures a variable that lives outside the loop
+// body and is assigned again by later iterations (the loop variable of a pre-1.22 module, or any variable
+// declared before the loop): every goroutine then works on whatever the last iteration left there.
+func hygieneLoopCapture(r *R, rule string, fn *ssa.Function) {
+	allInstrs(fn, func(in ssa.Instruction) {
+		g, ok := in.(*ssa.Go)
+		if !ok {
+			return
+		}
+		mc, ok := g.Call.Value.(*ssa.MakeClosure)
+		if !ok {
+			return
+		}
+		hdr := loopHeaderOf(g.Block())
+		if hdr == nil {
+			return
+		}
+		body := loopBody(hdr)
+		bad := ""
+		for _, b := range mc.Bindings {
+			al, ok := b.(*ssa.Alloc)
+			if !ok || body[al.Block()] {
+				continue // a per-iteration variable (declared inside the loop body)
+			}
+			// written inside the loop (directly, not through the closure)?
+			for _, ref := range *al.Referrers() {
+				if st, isS := ref.(*ssa.Store); isS && st.Addr == ssa.Value(al) && body[st.Block()] {
+					// and read by the goroutine
+					bad = al.Comment
+				}
+			}
+		}
+		r.Check(bad == "", rule, fn, "go func in loop", g.Pos(), "captures only per-iteration variables (or variables the loop does not reassign)",
+			"the goroutine captures `"+bad+"`, which lives outside the loop body and is reassigned by later iterations: all goroutines see the last value")
+	})
 }
